@@ -32,7 +32,7 @@ def families(sizes):
         u = [0] * d; u[k] = direction
         out.append(("unimodal%d%+d" % (k, direction), dict(unimodalities=u)))
   if d >= 2:
-    for main, cond in ((0, 1), (1, 0)) + (((0, 2),) if d >= 3 else ()):
+    for main, cond in ((0, 1), (1, 0)) + (((0, 2), (1, 2)) if d >= 3 else ()):
       for s in (1, -1):
         m = [0] * d; m[main] = 1
         out.append(("edgeworth%d%d%+d" % (main, cond, s),
